@@ -356,3 +356,6 @@ from .sched import r_no_downgrade  # noqa: E402
 
 RULES = [r_no_downgrade, r1_purge_guard, r2_tracker_removal, r3_r4_flush, r_transfer_source, r6_fetch_queue, r7_available_writers,
          r_last_output_order]
+
+from .common import lazy  # noqa: E402
+RULES.append(lazy("C16", "r1_projections", "the purge tracker is initialised from the preschedule's consumer map: a consumer missing there lets its input be purged early"))
